@@ -231,6 +231,16 @@ func decThr(num, den int) float64 { return float64(num) / float64(den) }
 // decimal, its 3-, 9- (nearest) and 12-decimal (floor, ceiling) neighbours otherwise. With at most 12 decimals and
 // n <= 1000 the distance to any other k'/n is far above a float64 ulp, so "count/n >= threshold" means the same over
 // the rationals (the model) and over float64 (the Go code).
+// atScale: is this case to be one of the cases at scale? One in den in the quick tier; the thorough tier draws ten to a hundred
+// times as many cases, and a case at scale costs the model seconds, so there it is one in 8*den (still several times as
+// many such cases as in the quick tier)
+func atScale(r *RNG, den int) bool {
+	if opts.tier == "thorough" {
+		den *= 8
+	}
+	return r.Chance(1, den)
+}
+
 func genThreshold(r *RNG, n int) (int, int) {
 	if n < 1 {
 		n = 1
